@@ -52,11 +52,16 @@ func ToDateTime64(t time.Time, p Precision) DateTime64 {
 	if t.IsZero() {
 		return 0
 	}
-	return DateTime64(t.UnixNano() / p.Scale())
+	// Not using t.UnixNano(): it overflows int64 before 1678 and after 2262,
+	// while DateTime64 with precision below 9 covers a wider range.
+	scale := p.Scale() // nanoseconds in tick
+	ticks := int64(time.Second) / scale
+	return DateTime64(t.Unix()*ticks + int64(t.Nanosecond())/scale)
 }
 
 // Time returns DateTime64 as time.Time.
 func (d DateTime64) Time(p Precision) time.Time {
-	nsec := int64(d) * p.Scale()
-	return time.Unix(nsec/1e9, nsec%1e9)
+	scale := p.Scale() // nanoseconds in tick
+	ticks := int64(time.Second) / scale
+	return time.Unix(int64(d)/ticks, (int64(d)%ticks)*scale)
 }
